@@ -271,14 +271,19 @@ package adaptation
 //@ pure noNilCDI(s []*CDIDevice) = forall i int :: 0 <= i && i < len(s) ==> allocated(s[i])
 //@ pure noNilRlimits(s []*POSIXRlimit) = forall i int :: 0 <= i && i < len(s) ==> allocated(s[i])
 
+// C02 hypothesis for CDI devices: no name is owned yet and the response names each device once
+//@ pure cdiDisjoint(r *result, devices []*CDIDevice) = (forall i int :: 0 <= i && i < len(devices) ==> !has(ledger(r).cdiDevices, devices[i].Name))
+//@     && (forall i int, j int :: 0 <= i && i < j && j < len(devices) ==> devices[i].Name != devices[j].Name)
+//@ pure rlimitsDisjoint(r *result, rlimits []*POSIXRlimit) = (forall i int :: 0 <= i && i < len(rlimits) ==> !has(ledger(r).rlimits, rlimits[i].Type))
+//@     && (forall i int, j int :: 0 <= i && i < j && j < len(rlimits) ==> rlimits[i].Type != rlimits[j].Type)
+
 //@ func result.adjustCDIDevices
 //@   props C01 C02 C03
 //@   requires wfCreate(r) && noNilCDI(devices) && sep(base(devices), base(reply(r).CDIDevices))
 //@   modifies map(r.owners), ledger(r).cdiDevices, map(ledger(r).cdiDevices), reply(r).CDIDevices, elems(reply(r).CDIDevices)
 //@   ensures [noop]    len(devices) == 0 ==> result == nil && reply(r).CDIDevices == old(reply(r).CDIDevices) && ledgerSame(r) && ledger(r).cdiDevices == old(ledger(r).cdiDevices)
 //@   ensures [c01]     forall i int :: 0 <= i && i < len(devices) && old(has(ledger(r).cdiDevices, devices[i].Name)) ==> result != nil
-//@   ensures [c02]     (forall i int :: 0 <= i && i < len(devices) ==> !old(has(ledger(r).cdiDevices, devices[i].Name)))
-//@                  && (forall i int, j int :: 0 <= i && i < j && j < len(devices) ==> devices[i].Name != devices[j].Name) ==> result == nil
+//@   ensures [c02]     old(cdiDisjoint(r, devices)) ==> result == nil
 //@   ensures [merge]   result == nil ==> len(reply(r).CDIDevices) == old(len(reply(r).CDIDevices)) + len(devices)
 //@                  && (forall i int :: 0 <= i && i < old(len(reply(r).CDIDevices)) ==> reply(r).CDIDevices[i] == old(reply(r).CDIDevices[i]))
 //@                  && (forall i int :: 0 <= i && i < len(devices) ==> reply(r).CDIDevices[old(len(reply(r).CDIDevices)) + i] == devices[i])
@@ -298,4 +303,210 @@ package adaptation
 //@   loop 1 invariant base(reply(r).CDIDevices) == old(base(reply(r).CDIDevices)) || fresh(reply(r).CDIDevices)
 //@   loop 1 invariant wfCreate(r) && cid(r) == old(cid(r)) && reply(r) == old(reply(r))
 //@   loop 1 invariant mapStable(ledger(r).cdiDevices, old(ledger(r).cdiDevices))
-//@   loop 1 invariant forall k string :: has(ledger(r).cdiDevices, k) && !old(has(ledger(r).cdiDevices, k)) ==> exists i int :: 0 <= i && i <= idx && devices[i].Name == k
+//@   loop 1 invariant old(cdiDisjoint(r, devices)) ==> forall j int :: idx < j && j < len(devices) ==> !has(ledger(r).cdiDevices, devices[j].Name)
+
+//@ func result.adjustRlimits
+//@   props C01 C02 C03 C04
+//@   requires wfCreate(r) && noNilRlimits(rlimits)
+//@   requires sep(base(rlimits), base(reply(r).Rlimits)) && sep(base(rlimits), base(view(r).Rlimits)) && sep(base(view(r).Rlimits), base(reply(r).Rlimits))
+//@   modifies map(r.owners), ledger(r).rlimits, map(ledger(r).rlimits), reply(r).Rlimits, elems(reply(r).Rlimits), view(r).Rlimits, elems(view(r).Rlimits)
+//@   ensures [noop]    len(rlimits) == 0 ==> result == nil && reply(r).Rlimits == old(reply(r).Rlimits) && view(r).Rlimits == old(view(r).Rlimits)
+//@                     && ledgerSame(r) && ledger(r).rlimits == old(ledger(r).rlimits)
+//@   ensures [c01]     forall i int :: 0 <= i && i < len(rlimits) && old(has(ledger(r).rlimits, rlimits[i].Type)) ==> result != nil
+//@   ensures [c02]     old(rlimitsDisjoint(r, rlimits)) ==> result == nil
+//@   ensures [merge]   result == nil ==> len(reply(r).Rlimits) == old(len(reply(r).Rlimits)) + len(rlimits)
+//@                  && (forall i int :: 0 <= i && i < old(len(reply(r).Rlimits)) ==> reply(r).Rlimits[i] == old(reply(r).Rlimits[i]))
+//@                  && (forall i int :: 0 <= i && i < len(rlimits) ==> rlimits[i] == reply(r).Rlimits[old(len(reply(r).Rlimits)) + i])
+//@   ensures [view]    result == nil ==> len(view(r).Rlimits) == old(len(view(r).Rlimits)) + len(rlimits)
+//@                  && (forall i int :: 0 <= i && i < old(len(view(r).Rlimits)) ==> view(r).Rlimits[i] == old(view(r).Rlimits[i]))
+//@                  && (forall i int :: 0 <= i && i < len(rlimits) ==> rlimits[i] == view(r).Rlimits[old(len(view(r).Rlimits)) + i])
+//@   ensures [owned]   result == nil ==> forall i int :: 0 <= i && i < len(rlimits) ==> ledger(r).rlimits[rlimits[i].Type] == plugin && has(ledger(r).rlimits, rlimits[i].Type)
+//@   ensures [kept]    forall k string :: old(has(ledger(r).rlimits, k)) ==> has(ledger(r).rlimits, k) && ledger(r).rlimits[k] == old(ledger(r).rlimits[k])
+//@   ensures [ledger]  len(rlimits) > 0 ==> ledgerKept(r) && (!old(has(r.owners, cid(r))) ==> fresh(ledger(r)) && zeroedexcept(ledger(r), "rlimits"))
+//@   ensures [arr]     (base(reply(r).Rlimits) == old(base(reply(r).Rlimits)) || fresh(reply(r).Rlimits))
+//@                  && (base(view(r).Rlimits) == old(base(view(r).Rlimits)) || fresh(view(r).Rlimits))
+//@                  && sep(base(view(r).Rlimits), base(reply(r).Rlimits))
+//@   loop 1 invariant 0 <= idx + 1 && idx + 1 <= len(rlimits)
+//@   loop 1 invariant idx >= 0 ==> ledgerKept(r) && (!old(has(r.owners, cid(r))) ==> fresh(ledger(r)) && zeroedexcept(ledger(r), "rlimits"))
+//@   loop 1 invariant idx == 0 - 1 ==> ledgerSame(r) && ledger(r).rlimits == old(ledger(r).rlimits) && reply(r).Rlimits == old(reply(r).Rlimits) && view(r).Rlimits == old(view(r).Rlimits)
+//@   loop 1 invariant forall k string :: old(has(ledger(r).rlimits, k)) ==> has(ledger(r).rlimits, k) && ledger(r).rlimits[k] == old(ledger(r).rlimits[k])
+//@   loop 1 invariant forall i int :: 0 <= i && i <= idx ==> !old(has(ledger(r).rlimits, rlimits[i].Type)) && has(ledger(r).rlimits, rlimits[i].Type) && ledger(r).rlimits[rlimits[i].Type] == plugin
+//@   loop 1 invariant len(reply(r).Rlimits) == old(len(reply(r).Rlimits)) + idx + 1 && len(view(r).Rlimits) == old(len(view(r).Rlimits)) + idx + 1
+//@   loop 1 invariant forall i int :: 0 <= i && i < old(len(reply(r).Rlimits)) ==> reply(r).Rlimits[i] == old(reply(r).Rlimits[i])
+//@   loop 1 invariant forall i int :: 0 <= i && i <= idx ==> rlimits[i] == reply(r).Rlimits[old(len(reply(r).Rlimits)) + i]
+//@   loop 1 invariant forall i int :: 0 <= i && i < old(len(view(r).Rlimits)) ==> view(r).Rlimits[i] == old(view(r).Rlimits[i])
+//@   loop 1 invariant forall i int :: 0 <= i && i <= idx ==> rlimits[i] == view(r).Rlimits[old(len(view(r).Rlimits)) + i]
+//@   loop 1 invariant base(reply(r).Rlimits) == old(base(reply(r).Rlimits)) || fresh(reply(r).Rlimits)
+//@   loop 1 invariant base(view(r).Rlimits) == old(base(view(r).Rlimits)) || fresh(view(r).Rlimits)
+//@   loop 1 invariant sep(base(view(r).Rlimits), base(reply(r).Rlimits))
+//@   loop 1 invariant wfCreate(r) && cid(r) == old(cid(r)) && reply(r) == old(reply(r)) && view(r) == old(view(r)) && r.request.create == old(r.request.create)
+//@   loop 1 invariant mapStable(ledger(r).rlimits, old(ledger(r).rlimits))
+//@   loop 1 invariant old(rlimitsDisjoint(r, rlimits)) ==> forall j int :: idx < j && j < len(rlimits) ==> !has(ledger(r).rlimits, rlimits[j].Type)
+
+// ---- hooks: six lists, appended to the reply and to the view (generated by gen_hooks.py) ----
+//@ pure sepHookTargets(r *result) = sep(base(reply(r).Hooks.Prestart), base(reply(r).Hooks.Poststart))
+//@     && sep(base(reply(r).Hooks.Prestart), base(reply(r).Hooks.Poststop))
+//@     && sep(base(reply(r).Hooks.Prestart), base(reply(r).Hooks.CreateRuntime))
+//@     && sep(base(reply(r).Hooks.Prestart), base(reply(r).Hooks.CreateContainer))
+//@     && sep(base(reply(r).Hooks.Prestart), base(reply(r).Hooks.StartContainer))
+//@     && sep(base(reply(r).Hooks.Prestart), base(view(r).Hooks.Prestart))
+//@     && sep(base(reply(r).Hooks.Prestart), base(view(r).Hooks.Poststart))
+//@     && sep(base(reply(r).Hooks.Prestart), base(view(r).Hooks.Poststop))
+//@     && sep(base(reply(r).Hooks.Prestart), base(view(r).Hooks.CreateRuntime))
+//@     && sep(base(reply(r).Hooks.Prestart), base(view(r).Hooks.CreateContainer))
+//@     && sep(base(reply(r).Hooks.Prestart), base(view(r).Hooks.StartContainer))
+//@     && sep(base(reply(r).Hooks.Poststart), base(reply(r).Hooks.Poststop))
+//@     && sep(base(reply(r).Hooks.Poststart), base(reply(r).Hooks.CreateRuntime))
+//@     && sep(base(reply(r).Hooks.Poststart), base(reply(r).Hooks.CreateContainer))
+//@     && sep(base(reply(r).Hooks.Poststart), base(reply(r).Hooks.StartContainer))
+//@     && sep(base(reply(r).Hooks.Poststart), base(view(r).Hooks.Prestart))
+//@     && sep(base(reply(r).Hooks.Poststart), base(view(r).Hooks.Poststart))
+//@     && sep(base(reply(r).Hooks.Poststart), base(view(r).Hooks.Poststop))
+//@     && sep(base(reply(r).Hooks.Poststart), base(view(r).Hooks.CreateRuntime))
+//@     && sep(base(reply(r).Hooks.Poststart), base(view(r).Hooks.CreateContainer))
+//@     && sep(base(reply(r).Hooks.Poststart), base(view(r).Hooks.StartContainer))
+//@     && sep(base(reply(r).Hooks.Poststop), base(reply(r).Hooks.CreateRuntime))
+//@     && sep(base(reply(r).Hooks.Poststop), base(reply(r).Hooks.CreateContainer))
+//@     && sep(base(reply(r).Hooks.Poststop), base(reply(r).Hooks.StartContainer))
+//@     && sep(base(reply(r).Hooks.Poststop), base(view(r).Hooks.Prestart))
+//@     && sep(base(reply(r).Hooks.Poststop), base(view(r).Hooks.Poststart))
+//@     && sep(base(reply(r).Hooks.Poststop), base(view(r).Hooks.Poststop))
+//@     && sep(base(reply(r).Hooks.Poststop), base(view(r).Hooks.CreateRuntime))
+//@     && sep(base(reply(r).Hooks.Poststop), base(view(r).Hooks.CreateContainer))
+//@     && sep(base(reply(r).Hooks.Poststop), base(view(r).Hooks.StartContainer))
+//@     && sep(base(reply(r).Hooks.CreateRuntime), base(reply(r).Hooks.CreateContainer))
+//@     && sep(base(reply(r).Hooks.CreateRuntime), base(reply(r).Hooks.StartContainer))
+//@     && sep(base(reply(r).Hooks.CreateRuntime), base(view(r).Hooks.Prestart))
+//@     && sep(base(reply(r).Hooks.CreateRuntime), base(view(r).Hooks.Poststart))
+//@     && sep(base(reply(r).Hooks.CreateRuntime), base(view(r).Hooks.Poststop))
+//@     && sep(base(reply(r).Hooks.CreateRuntime), base(view(r).Hooks.CreateRuntime))
+//@     && sep(base(reply(r).Hooks.CreateRuntime), base(view(r).Hooks.CreateContainer))
+//@     && sep(base(reply(r).Hooks.CreateRuntime), base(view(r).Hooks.StartContainer))
+//@     && sep(base(reply(r).Hooks.CreateContainer), base(reply(r).Hooks.StartContainer))
+//@     && sep(base(reply(r).Hooks.CreateContainer), base(view(r).Hooks.Prestart))
+//@     && sep(base(reply(r).Hooks.CreateContainer), base(view(r).Hooks.Poststart))
+//@     && sep(base(reply(r).Hooks.CreateContainer), base(view(r).Hooks.Poststop))
+//@     && sep(base(reply(r).Hooks.CreateContainer), base(view(r).Hooks.CreateRuntime))
+//@     && sep(base(reply(r).Hooks.CreateContainer), base(view(r).Hooks.CreateContainer))
+//@     && sep(base(reply(r).Hooks.CreateContainer), base(view(r).Hooks.StartContainer))
+//@     && sep(base(reply(r).Hooks.StartContainer), base(view(r).Hooks.Prestart))
+//@     && sep(base(reply(r).Hooks.StartContainer), base(view(r).Hooks.Poststart))
+//@     && sep(base(reply(r).Hooks.StartContainer), base(view(r).Hooks.Poststop))
+//@     && sep(base(reply(r).Hooks.StartContainer), base(view(r).Hooks.CreateRuntime))
+//@     && sep(base(reply(r).Hooks.StartContainer), base(view(r).Hooks.CreateContainer))
+//@     && sep(base(reply(r).Hooks.StartContainer), base(view(r).Hooks.StartContainer))
+//@     && sep(base(view(r).Hooks.Prestart), base(view(r).Hooks.Poststart))
+//@     && sep(base(view(r).Hooks.Prestart), base(view(r).Hooks.Poststop))
+//@     && sep(base(view(r).Hooks.Prestart), base(view(r).Hooks.CreateRuntime))
+//@     && sep(base(view(r).Hooks.Prestart), base(view(r).Hooks.CreateContainer))
+//@     && sep(base(view(r).Hooks.Prestart), base(view(r).Hooks.StartContainer))
+//@     && sep(base(view(r).Hooks.Poststart), base(view(r).Hooks.Poststop))
+//@     && sep(base(view(r).Hooks.Poststart), base(view(r).Hooks.CreateRuntime))
+//@     && sep(base(view(r).Hooks.Poststart), base(view(r).Hooks.CreateContainer))
+//@     && sep(base(view(r).Hooks.Poststart), base(view(r).Hooks.StartContainer))
+//@     && sep(base(view(r).Hooks.Poststop), base(view(r).Hooks.CreateRuntime))
+//@     && sep(base(view(r).Hooks.Poststop), base(view(r).Hooks.CreateContainer))
+//@     && sep(base(view(r).Hooks.Poststop), base(view(r).Hooks.StartContainer))
+//@     && sep(base(view(r).Hooks.CreateRuntime), base(view(r).Hooks.CreateContainer))
+//@     && sep(base(view(r).Hooks.CreateRuntime), base(view(r).Hooks.StartContainer))
+//@     && sep(base(view(r).Hooks.CreateContainer), base(view(r).Hooks.StartContainer))
+//@ pure sepHookInput(r *result, hooks *Hooks) = sep(base(hooks.Prestart), base(reply(r).Hooks.Prestart))
+//@     && sep(base(hooks.Prestart), base(reply(r).Hooks.Poststart))
+//@     && sep(base(hooks.Prestart), base(reply(r).Hooks.Poststop))
+//@     && sep(base(hooks.Prestart), base(reply(r).Hooks.CreateRuntime))
+//@     && sep(base(hooks.Prestart), base(reply(r).Hooks.CreateContainer))
+//@     && sep(base(hooks.Prestart), base(reply(r).Hooks.StartContainer))
+//@     && sep(base(hooks.Prestart), base(view(r).Hooks.Prestart))
+//@     && sep(base(hooks.Prestart), base(view(r).Hooks.Poststart))
+//@     && sep(base(hooks.Prestart), base(view(r).Hooks.Poststop))
+//@     && sep(base(hooks.Prestart), base(view(r).Hooks.CreateRuntime))
+//@     && sep(base(hooks.Prestart), base(view(r).Hooks.CreateContainer))
+//@     && sep(base(hooks.Prestart), base(view(r).Hooks.StartContainer))
+//@     && sep(base(hooks.Poststart), base(reply(r).Hooks.Prestart))
+//@     && sep(base(hooks.Poststart), base(reply(r).Hooks.Poststart))
+//@     && sep(base(hooks.Poststart), base(reply(r).Hooks.Poststop))
+//@     && sep(base(hooks.Poststart), base(reply(r).Hooks.CreateRuntime))
+//@     && sep(base(hooks.Poststart), base(reply(r).Hooks.CreateContainer))
+//@     && sep(base(hooks.Poststart), base(reply(r).Hooks.StartContainer))
+//@     && sep(base(hooks.Poststart), base(view(r).Hooks.Prestart))
+//@     && sep(base(hooks.Poststart), base(view(r).Hooks.Poststart))
+//@     && sep(base(hooks.Poststart), base(view(r).Hooks.Poststop))
+//@     && sep(base(hooks.Poststart), base(view(r).Hooks.CreateRuntime))
+//@     && sep(base(hooks.Poststart), base(view(r).Hooks.CreateContainer))
+//@     && sep(base(hooks.Poststart), base(view(r).Hooks.StartContainer))
+//@     && sep(base(hooks.Poststop), base(reply(r).Hooks.Prestart))
+//@     && sep(base(hooks.Poststop), base(reply(r).Hooks.Poststart))
+//@     && sep(base(hooks.Poststop), base(reply(r).Hooks.Poststop))
+//@     && sep(base(hooks.Poststop), base(reply(r).Hooks.CreateRuntime))
+//@     && sep(base(hooks.Poststop), base(reply(r).Hooks.CreateContainer))
+//@     && sep(base(hooks.Poststop), base(reply(r).Hooks.StartContainer))
+//@     && sep(base(hooks.Poststop), base(view(r).Hooks.Prestart))
+//@     && sep(base(hooks.Poststop), base(view(r).Hooks.Poststart))
+//@     && sep(base(hooks.Poststop), base(view(r).Hooks.Poststop))
+//@     && sep(base(hooks.Poststop), base(view(r).Hooks.CreateRuntime))
+//@     && sep(base(hooks.Poststop), base(view(r).Hooks.CreateContainer))
+//@     && sep(base(hooks.Poststop), base(view(r).Hooks.StartContainer))
+//@     && sep(base(hooks.CreateRuntime), base(reply(r).Hooks.Prestart))
+//@     && sep(base(hooks.CreateRuntime), base(reply(r).Hooks.Poststart))
+//@     && sep(base(hooks.CreateRuntime), base(reply(r).Hooks.Poststop))
+//@     && sep(base(hooks.CreateRuntime), base(reply(r).Hooks.CreateRuntime))
+//@     && sep(base(hooks.CreateRuntime), base(reply(r).Hooks.CreateContainer))
+//@     && sep(base(hooks.CreateRuntime), base(reply(r).Hooks.StartContainer))
+//@     && sep(base(hooks.CreateRuntime), base(view(r).Hooks.Prestart))
+//@     && sep(base(hooks.CreateRuntime), base(view(r).Hooks.Poststart))
+//@     && sep(base(hooks.CreateRuntime), base(view(r).Hooks.Poststop))
+//@     && sep(base(hooks.CreateRuntime), base(view(r).Hooks.CreateRuntime))
+//@     && sep(base(hooks.CreateRuntime), base(view(r).Hooks.CreateContainer))
+//@     && sep(base(hooks.CreateRuntime), base(view(r).Hooks.StartContainer))
+//@     && sep(base(hooks.CreateContainer), base(reply(r).Hooks.Prestart))
+//@     && sep(base(hooks.CreateContainer), base(reply(r).Hooks.Poststart))
+//@     && sep(base(hooks.CreateContainer), base(reply(r).Hooks.Poststop))
+//@     && sep(base(hooks.CreateContainer), base(reply(r).Hooks.CreateRuntime))
+//@     && sep(base(hooks.CreateContainer), base(reply(r).Hooks.CreateContainer))
+//@     && sep(base(hooks.CreateContainer), base(reply(r).Hooks.StartContainer))
+//@     && sep(base(hooks.CreateContainer), base(view(r).Hooks.Prestart))
+//@     && sep(base(hooks.CreateContainer), base(view(r).Hooks.Poststart))
+//@     && sep(base(hooks.CreateContainer), base(view(r).Hooks.Poststop))
+//@     && sep(base(hooks.CreateContainer), base(view(r).Hooks.CreateRuntime))
+//@     && sep(base(hooks.CreateContainer), base(view(r).Hooks.CreateContainer))
+//@     && sep(base(hooks.CreateContainer), base(view(r).Hooks.StartContainer))
+//@     && sep(base(hooks.StartContainer), base(reply(r).Hooks.Prestart))
+//@     && sep(base(hooks.StartContainer), base(reply(r).Hooks.Poststart))
+//@     && sep(base(hooks.StartContainer), base(reply(r).Hooks.Poststop))
+//@     && sep(base(hooks.StartContainer), base(reply(r).Hooks.CreateRuntime))
+//@     && sep(base(hooks.StartContainer), base(reply(r).Hooks.CreateContainer))
+//@     && sep(base(hooks.StartContainer), base(reply(r).Hooks.StartContainer))
+//@     && sep(base(hooks.StartContainer), base(view(r).Hooks.Prestart))
+//@     && sep(base(hooks.StartContainer), base(view(r).Hooks.Poststart))
+//@     && sep(base(hooks.StartContainer), base(view(r).Hooks.Poststop))
+//@     && sep(base(hooks.StartContainer), base(view(r).Hooks.CreateRuntime))
+//@     && sep(base(hooks.StartContainer), base(view(r).Hooks.CreateContainer))
+//@     && sep(base(hooks.StartContainer), base(view(r).Hooks.StartContainer))
+//@ pure noNilHookList(s []*Hook) = forall i int :: 0 <= i && i < len(s) ==> allocated(s[i])
+
+//@ template hookList(T, L)
+//@   ensures [$T.$L.len]  hooks != nil ==> len($T(r).Hooks.$L) == old(len($T(r).Hooks.$L)) + len(hooks.$L)
+//@   ensures [$T.$L.old] @thorough hooks != nil ==> forall i int :: 0 <= i && i < old(len($T(r).Hooks.$L)) ==> $T(r).Hooks.$L[i] == old($T(r).Hooks.$L[i])
+//@   ensures [$T.$L.new] @thorough hooks != nil ==> forall i int :: 0 <= i && i < len(hooks.$L) ==> hooks.$L[i] == $T(r).Hooks.$L[old(len($T(r).Hooks.$L)) + i]
+//@   ensures [$T.$L.arr]  base($T(r).Hooks.$L) == old(base($T(r).Hooks.$L)) || fresh($T(r).Hooks.$L)
+//@ end
+
+//@ func result.adjustHooks
+//@   props C03 C04
+//@   requires wfCreate(r) && sepHookTargets(r) && (hooks != nil ==> sepHookInput(r, hooks))
+//@   modifies reply(r).Hooks.Prestart, elems(reply(r).Hooks.Prestart), reply(r).Hooks.Poststart, elems(reply(r).Hooks.Poststart), reply(r).Hooks.Poststop, elems(reply(r).Hooks.Poststop), reply(r).Hooks.CreateRuntime, elems(reply(r).Hooks.CreateRuntime), reply(r).Hooks.CreateContainer, elems(reply(r).Hooks.CreateContainer), reply(r).Hooks.StartContainer, elems(reply(r).Hooks.StartContainer), view(r).Hooks.Prestart, elems(view(r).Hooks.Prestart), view(r).Hooks.Poststart, elems(view(r).Hooks.Poststart), view(r).Hooks.Poststop, elems(view(r).Hooks.Poststop), view(r).Hooks.CreateRuntime, elems(view(r).Hooks.CreateRuntime), view(r).Hooks.CreateContainer, elems(view(r).Hooks.CreateContainer), view(r).Hooks.StartContainer, elems(view(r).Hooks.StartContainer)
+//@   ensures [ok]    result == nil
+//@   ensures [noop]  hooks == nil ==> reply(r).Hooks.Prestart == old(reply(r).Hooks.Prestart) && reply(r).Hooks.Poststart == old(reply(r).Hooks.Poststart) && reply(r).Hooks.Poststop == old(reply(r).Hooks.Poststop) && reply(r).Hooks.CreateRuntime == old(reply(r).Hooks.CreateRuntime) && reply(r).Hooks.CreateContainer == old(reply(r).Hooks.CreateContainer) && reply(r).Hooks.StartContainer == old(reply(r).Hooks.StartContainer) && view(r).Hooks.Prestart == old(view(r).Hooks.Prestart) && view(r).Hooks.Poststart == old(view(r).Hooks.Poststart) && view(r).Hooks.Poststop == old(view(r).Hooks.Poststop) && view(r).Hooks.CreateRuntime == old(view(r).Hooks.CreateRuntime) && view(r).Hooks.CreateContainer == old(view(r).Hooks.CreateContainer) && view(r).Hooks.StartContainer == old(view(r).Hooks.StartContainer)
+//@   ensures [sep]   sepHookTargets(r)
+//@ apply hookList(reply, Prestart)
+//@ apply hookList(reply, Poststart)
+//@ apply hookList(reply, Poststop)
+//@ apply hookList(reply, CreateRuntime)
+//@ apply hookList(reply, CreateContainer)
+//@ apply hookList(reply, StartContainer)
+//@ apply hookList(view, Prestart)
+//@ apply hookList(view, Poststart)
+//@ apply hookList(view, Poststop)
+//@ apply hookList(view, CreateRuntime)
+//@ apply hookList(view, CreateContainer)
+//@ apply hookList(view, StartContainer)
